@@ -120,8 +120,8 @@ func CrashSweep(sc *Scenario, from, to, cont int, tmp string, emit func(J)) (int
 	n := 0
 	for H := from; H <= to; H++ {
 		start := snapAt[H-1]
-		if H == 1 || start == "" {
-			continue // block 1 runs on the genesis state, which only exists in memory (InitChain is replayed by the engine)
+		if H > 1 && start == "" {
+			continue
 		}
 		// execute block H once on a copy of the state after H-1, taking a snapshot at every crash point
 		root, err := os.MkdirTemp(tmp, "crashX-")
@@ -129,8 +129,10 @@ func CrashSweep(sc *Scenario, from, to, cont int, tmp string, emit func(J)) (int
 			return n, err
 		}
 		dir := filepath.Join(root, "X-0")
-		if err := CopyDir(start, dir); err != nil {
-			return n, err
+		if H > 1 {
+			if err := CopyDir(start, dir); err != nil {
+				return n, err
+			}
 		}
 		app, info, err := OpenApp(dir)
 		if err != nil {
@@ -140,6 +142,13 @@ func CrashSweep(sc *Scenario, from, to, cont int, tmp string, emit func(J)) (int
 			return n, fmt.Errorf("snapshot after block %d reports height %d", H-1, info.LastBlockHeight)
 		}
 		x := &Replica{Name: "X", Root: root, App: app, KR: NewKeyring(sc.Genesis.Seed, sc.NAccts), G: &sc.Genesis, emit: func(J) {}, Height: int64(H - 1), NoProj: true}
+		if H == 1 {
+			// the genesis block: the consensus engine delivers InitChain to an application that reports height 0; the genesis
+			// state then exists in memory only until the first commit
+			if _, err := app.InitChain(&sc.Genesis, x.KR); err != nil {
+				return n, fmt.Errorf("InitChain on a fresh directory failed: %v", err)
+			}
+		}
 		var points []crashPoint
 		snap := func(label, site string, ord, opIdx int) {
 			d := filepath.Join(root, fmt.Sprintf("snap-%d", len(points)))
@@ -149,7 +158,11 @@ func CrashSweep(sc *Scenario, from, to, cont int, tmp string, emit func(J)) (int
 			points = append(points, crashPoint{label, site, ord, d, opIdx})
 		}
 		b := blocks[H-1]
-		snap("before:begin", "", 0, b[0])
+		if H == 1 {
+			snap("after:initchain", "", 0, b[0])
+		} else {
+			snap("before:begin", "", 0, b[0])
+		}
 		ndeliver := 0
 		for _, i := range b {
 			op := &sc.Ops[i]
@@ -202,10 +215,19 @@ func CrashSweep(sc *Scenario, from, to, cont int, tmp string, emit func(J)) (int
 			// the hash reported must be the one of the reported height
 			if ih >= 1 && int(ih) <= len(hashes) {
 				ev["infoHashOK"] = hex.EncodeToString(info.LastBlockAppHash) == hashes[ih-1]
+			} else if ih == 0 {
+				// nothing committed yet: the engine starts from the genesis (InitChain) whatever hash is reported as "none"
+				ev["infoHashOK"] = len(info.LastBlockAppHash) == 0
 			}
 			// Tendermint's handshake: the block store has block H; the application may be at most at H
 			if ih > int64(H) {
 				ev["refused"] = "application height above the block store height"
+			}
+			if ih == 0 {
+				// the engine's handshake delivers InitChain again to an application that reports height 0
+				if _, err := rec.InitChain(&sc.Genesis, x.KR); err != nil {
+					ev["replayPanic"] = "InitChain after the crash: " + clipLog(err.Error())
+				}
 			}
 			// replay H (if the application is behind) and continue
 			fork := 0
